@@ -74,6 +74,12 @@ CHECKS = {
         "The stored table slices are the reference (their correctness is C05/C07); records with non-unique names are skipped.",
         "DESIGN.md section 5 C13",
     ),
+    "C14": (
+        "Hypothesis @given widest valid inputs x option combinations; validity predicate (no exception, schema round-trip, JSON, finiteness, record count, temperature envelope, repeatability)",
+        "Generated-input search (1.2k quick / 40k thorough + a small heat-pump-option campaign): degenerate but legal shapes (single stream, only hot / cold, isothermal, zero contributions, duplicate names, unused utilities, value-with-unit numbers, explicit tree) crossed with the wired analysis flags and numeric options; exceptions are bucketed by type and innermost OpenPinch frame so each root cause is reported once.",
+        "Turbine options are excluded as unsupported (their parameters are commented out of Configuration); five known findings (indirect process targeting, area targeting at zero approach / with unallocated CU, process and utility heat-pump targeting) are excluded by input-only predicates.",
+        "DESIGN.md section 5 C14",
+    ),
     "C17": (
         "Hypothesis @given polylines (targeted on deviation); geometric oracle (point-to-polyline distance, one-sided bound) written in the harness",
         "Generated-input search (3k+400 quick / 100k+10k thorough): clean_composite_curve must return a subsequence covering the whole non-flat extent with every dropped point within 1e-6 of the kept polyline; get_piecewise_data_points must keep both ends and the original order, leave every original point within the requested deviation and respect the hot/cold one-sided bound of a tenth of it.",
